@@ -110,7 +110,7 @@ def teardown(ctx):
 def plan(tier):
     m = 1 if tier == 'quick' else 12
     return [('fit', 300 * m), ('corrfit', 60 * m), ('alias', 60 * m), ('history', 36 * m), ('scale', 60 * m), ('representation', 70 * m),
-            ('chain', 36 * m), ('boundary', 42 * m)]
+            ('chain', 36 * m), ('boundary', 42 * m), ('expchisq', 60 * m)]
 
 
 # ------------------------------------------------------------------------------------------
@@ -707,8 +707,18 @@ def supplied_factor(rng, dy):
     return np.tril(np.linalg.inv(np.linalg.cholesky(cov)))
 
 
-def run_fit_case(ctx, idx, rng):
+def run_expchisq_case(ctx, idx, rng):
+    """chisquare_by_expected_chisquare of combined fits to correlated data, keys presented in another order than sorted."""
+    force = dict(weights='diag', priors='none', expected_chisquare=True, mode=str(rng.choice(['shared', 'mixed', 'nested'])),
+                 nsets=int(rng.choice([2, 2, 3, 1])), exact=False)
+    force['variant'] = 'keyorder' if force['nsets'] > 1 else str(rng.choice(['permute', 'container']))
+    run_fit_case(ctx, idx, rng, force)
+
+
+def run_fit_case(ctx, idx, rng, force=None):
     opts = options_for(idx, rng)
+    if force:
+        opts.update(force)
     prob = make_problem(ctx, rng, opts)
     ys = prob['ys']
     if rng.random() < 0.25:
@@ -1391,5 +1401,5 @@ def run_boundary_case(ctx, idx, rng):
 def run_case(ctx, kind, idx, rng):
     GM.clear()
     runner = {'fit': run_fit_case, 'corrfit': run_corr_case, 'alias': run_alias_case, 'history': run_history_case, 'scale': run_scale_case,
-              'representation': run_flags_case, 'chain': run_chain_case, 'boundary': run_boundary_case}[kind]
+              'representation': run_flags_case, 'chain': run_chain_case, 'boundary': run_boundary_case, 'expchisq': run_expchisq_case}[kind]
     runner(ctx, idx, rng)
